@@ -879,19 +879,22 @@ def _check_probe(ctx, case):
         return data
 
     if name in ("doc_fact6_direct", "doc_fact6_list"):
-        # tutorial, "Some facts about P", 6: "P[Foo].name[Bar].age is valid and matches field age located at
-        # model Bar, situated at field name, placed at model Foo"
+        # tutorial, "Some facts about P", 6 (as corrected by /repo commit 3918e02): "Every element describes exactly one
+        # location of the path. P[Foo].name.age matches field age of the model stored directly in field name of model Foo;
+        # P[Foo].name[Bar].age matches field age of model Bar that is a type argument of field name (name: list[Bar])"
         ann = "Bar@N" if name == "doc_fact6_direct" else "List[Bar@N]"
         ns, n = _exec_classes(f"@dataclass\nclass Bar@N:\n    age: int\n\n@dataclass\nclass Foo@N:\n"
                               f"    name: {ann}\n    age: int\n")
         foo, bar = ns[f"Foo{n}"], ns[f"Bar{n}"]
-        retort = Retort(recipe=[loader(P[foo].name[bar].age, marker, Chain.FIRST)])
+        pattern = P[foo].name.age if name == "doc_fact6_direct" else P[foo].name[bar].age
+        retort = Retort(recipe=[loader(pattern, marker, Chain.FIRST)])
         inner = {"age": 7001}
         retort.load({"name": inner if name == "doc_fact6_direct" else [inner], "age": 7002}, foo)
         ctx.case(["probe", name], True, sample={"probe": name, "marker_calls": log}, labels=["part:probe", name])
         if log != [7001]:
             ctx.violation("doc_example_fact6", ("direct_nesting" if name == "doc_fact6_direct" else "generic_arg",),
-                          case, f"loader(P[Foo].name[Bar].age, marker) with Foo.name: {ann.replace('@N', '')}: "
+                          case, f"loader({'P[Foo].name.age' if name == 'doc_fact6_direct' else 'P[Foo].name[Bar].age'}, marker) "
+                                f"with Foo.name: {ann.replace('@N', '')}: "
                                 f"marker received {log!r}, the documented reading requires [7001] (Bar.age only)")
     elif name == "doc_tutorial_p_example":
         # tutorial example predicate_system_p.py: P[Book].created_at applies inside Book only
